@@ -7,6 +7,8 @@ open Rdest Rdest.Meta
 def natList (s : String) : List Nat := if s = "-" then [] else (s.splitOn ",").filterMap (·.toNat?)
 
 def c03 (args res : List String) : Verdict :=
+  -- `exs`: the same extraction in a directory that already holds longer versions of the output files
+  let args := match args with | "exs" :: t => "ex" :: t | a => a
   match args, res with
   | ["ex", pls, lens, ch], r :: rest =>
     match pls.toNat?, parseHex ch with
